@@ -28,6 +28,7 @@ fn main() {
                 std::process::exit(2);
             };
             let only = args.get(4).map(|s| s.as_str());
+            run::set_main_limits();
             let code = run::run_property(p, tier, seed, only);
             std::process::exit(code);
         }
